@@ -1,6 +1,6 @@
 # C15 - JSON Patch gives the RFC 6902 result and a failed patch changes nothing
 # (shared helpers of the jpatch family live here; checks/C16.py imports them)
-import os, json, struct
+import os, json, struct, re
 import vlib
 
 LEVEL = "proof"
@@ -137,6 +137,10 @@ def hx(s):
 # ------------------------------------------------------------------------------------------------
 # ORACLE: RFC 6901 / RFC 6902 over python values.  Written from the RFC text, independent of the Coq model.
 class PatchError(Exception):          # the RFC makes the operation an error
+    pass
+
+
+class TestFailed(PatchError):         # a `test` whose value differs
     pass
 
 
@@ -290,6 +294,8 @@ def apply_op(doc, op):
     frm = None
     if name in ("move", "copy") and not path:
         raise Lenient("move/copy onto the root is ignored by the library")
+    if name in EXT_OPS and not path:
+        raise Unspecified("extension on the root")
     if name in ("move", "copy", "swap"):
         if not isinstance(op.get("from"), str):
             raise PatchError("from missing")
@@ -304,7 +310,7 @@ def apply_op(doc, op):
         raise PatchError("value missing")
     v = clone(from_py(op["value"])) if "value" in op else None
     if name == "test":
-        return doc if rfc_eq(get(doc, path), v) else _raise(PatchError("test failed"))
+        return doc if rfc_eq(get(doc, path), v) else _raise(TestFailed("test failed"))
     if name == "add":
         return p_add(doc, path, v)
     if name == "remove":
@@ -400,15 +406,34 @@ def from_py(v):
     return v
 
 
+def pointers_clean(program):
+    for op in program:
+        if not isinstance(op, dict):
+            return False
+        for k in ("path", "from"):
+            if k in op:
+                try:
+                    if not isinstance(op[k], str) or (op[k] != "/" and ptr_parse(op[k]) is None):
+                        return False
+                except (PatchError, Lenient):
+                    return False
+    return True
+
+
 def oracle(doc, program):
     """-> (kind, value): kind 'ok' (value = result), 'err' (an operation fails per RFC), 'lenient', 'unspecified'"""
     cur = clone(from_py(doc))
     if not isinstance(program, list):
         return ("lenient", "patch document is not an array")
     kind = "ok"
-    for op in program:
+    for k, op in enumerate(program):
+        before = clone(cur) if isinstance(op, dict) and op.get("op") == "test" else None
         try:
             cur = apply_op(cur, op)
+        except TestFailed as e:
+            # a failing `test` changes nothing: the tree API must stop with the document as it was before that operation
+            # (the library parses every pointer of the patch before it applies the first operation)
+            return ("err", str(e), before if pointers_clean(program) else None)
         except PatchError as e:
             return ("err", str(e))
         except Lenient as e:
@@ -430,7 +455,7 @@ def gen_json(v):
 KEYS = ["a", "b", "ab", "abc", "a/b", "m~n", "0", "1", "01", "-", "k é", "x\"y", "value", "op", "path", "foo"]
 STRS = ["", "s", "str", "a/b", "é", "two words", "q\"uote", "back\\slash", "tab\there", "line\nfeed", "0", "~"]
 INTS = [0, 1, -1, 2, 7, 42, 127, 128, -129, 65536, 2147483647, -2147483648, 4294967296, 9007199254740993,
-        (1 << 63) - 1, -(1 << 63)]
+        (1 << 63) - 1, -(1 << 63) + 1]     # INT64_MIN itself leaves errno = ERANGE behind in the text parser (C17)
 FLTS = [0.5, 1.5, -2.5, 100.5, 1e10 + 0.5]
 
 
@@ -533,7 +558,7 @@ def gen_program(rng, doc, run=None):
             op["path"] = p
             tv = dict(paths).get(p)
             if i == fail_at or rng.chance(1, 5):
-                op["value"] = gen_value(rng, 1)
+                op["value"] = mutated(rng, tv) if rng.chance(2, 3) else gen_value(rng, 1)
             else:
                 op["value"] = tv if rng.chance(4, 5) else shuffled(rng, tv)
         elif kind == "add":
@@ -586,7 +611,8 @@ def gen_program(rng, doc, run=None):
         if rng.chance(1, 60):
             op["path"] = ""
         ops.append(op)
-        k, v = oracle(cur, [op])
+        orc1 = oracle(cur, [op])
+        k, v = orc1[0], orc1[1]
         if k == "ok":
             cur = to_gen(v) if v != ("NONE",) else ("NONE",)
             if isinstance(cur, tuple):
@@ -594,6 +620,42 @@ def gen_program(rng, doc, run=None):
         elif k in ("lenient", "unspecified"):
             break           # the expected document is not known any more; stop extending the program
     return ops
+
+
+def mutated(rng, v):
+    """a value that differs from v in one place deep inside (same shape otherwise)"""
+    if isinstance(v, dict) and v:
+        k = rng.choice(list(v.keys()))
+        r = rng.below(4)
+        if r == 0:
+            return {kk: vv for kk, vv in v.items() if kk != k}
+        if r == 1:
+            out = dict(v)
+            out[k + "x"] = out.pop(k)
+            return out
+        return {kk: (mutated(rng, vv) if kk == k else vv) for kk, vv in v.items()}
+    if isinstance(v, list) and v:
+        i = rng.below(len(v))
+        r = rng.below(4)
+        if r == 0:
+            return v[:i] + v[i + 1:]
+        if r == 1 and len(v) > 1:
+            w = list(v)
+            w[0], w[-1] = w[-1], w[0]
+            return w if w != v else v + [None]
+        return [mutated(rng, x) if j == i else x for j, x in enumerate(v)]
+    if isinstance(v, bool):
+        return not v
+    if isinstance(v, int):
+        w = v + rng.choice([1, -1, 256])
+        return w if -(1 << 63) < w < (1 << 63) else v // 2
+    if isinstance(v, float):
+        return v + 1.0
+    if isinstance(v, str):
+        return v + rng.choice(["x", " "]) if rng.chance(1, 2) or not v else v[:-1]
+    if v is None:
+        return rng.choice([False, 0, "", [], {}])
+    return rng.choice([None, 1, "m"])      # empty containers
 
 
 def shuffled(rng, v):
@@ -610,11 +672,13 @@ def shuffled(rng, v):
 
 
 # ------------------------------------------------------------------------------------------------
-def run_robust(exe, lines, env=None, timeout=240, max_restarts=12):
+def run_robust(exe, lines, env=None, timeout=None, max_restarts=5):
     """feeds the script; a crash at line i yields the answer 'CRASH <stderr summary>' for it and a restart after it"""
     out = []
     crashes = 0
     start = 0
+    if timeout is None:      # a healthy run answers thousands of lines per second; a corrupted tree can make the library loop
+        timeout = 12 + len(lines) // 50
     while start < len(lines):
         rc, o, err = vlib.run_lines(exe, "\n".join(lines[start:]) + "\n", timeout=timeout, env=env)
         complete, partial = o[:-1], o[-1] if o else ""      # the last piece has no newline: empty, or cut by the crash
@@ -626,7 +690,8 @@ def run_robust(exe, lines, env=None, timeout=240, max_restarts=12):
         out += complete[:n]
         why = "timeout" if rc == 124 else "exit %d" % rc
         m = [l for l in err.split("\n") if "ERROR: AddressSanitizer" in l or "SUMMARY" in l or "runtime error" in l or "Assertion" in l]
-        out.append("CRASH " + why + (" " + m[0].strip()[:160] if m else "") + (" partial=" + partial[:200] if partial else ""))
+        msg = re.sub(r"0x[0-9a-f]+", "ADDR", re.sub(r"==\d+==", "", m[0].strip()))[:160] if m else ""
+        out.append("CRASH " + why + (" " + msg if msg else "") + (" partial=" + partial[:200] if partial else ""))
         crashes += 1
         start += n + 1
         if crashes > max_restarts:
@@ -703,7 +768,9 @@ def check(run):
     # ---- ORACLE: RFC 6902 on the implementation's answers
     nviol = 0
     for ci, (dt, pt, doc, prog, origin) in enumerate(cases):
-        kind, exp = oracle(doc, prog)
+        orc = oracle(doc, prog)
+        kind, exp = orc[0], orc[1]
+        stopped_at = orc[2] if len(orc) > 2 else None
         opnames = "+".join(sorted(set(str(o.get("op", o.get("o", "?"))) if isinstance(o, dict) else "?" for o in prog))) if isinstance(prog, list) else "?"
         run.dist("result:" + kind)
         run.dist("len:%d" % (len(prog) if isinstance(prog, list) else 0))
@@ -762,6 +829,9 @@ def check(run):
             elif kind == "err":
                 if f["rc"] == "ok":
                     viol("RFC 6902 makes this patch an error (%s), the library reports success: doc %s patch %s -> %s" % (exp, dt, pt, f["doc"]))
+                elif not binary and stopped_at is not None and not eq_unordered(got, stopped_at):
+                    viol("a `test` operation fails (%s) but the tree is not the document as it was before that operation "
+                         "(evaluation went on, or the test changed something): doc %s patch %s -> %s" % (exp, dt, pt, f["doc"]))
     return run.finish(level=LEVEL,
                       rule="(document, patch program) pairs: documents of depth <= 3 over a small key alphabet (escaped '/', '~', "
                            "numeric-looking keys, prefixes of one another), programs of 1-8 operations generated against the "
